@@ -127,7 +127,7 @@ class AcctSession:
         return snapshot_from_store(self.kind, self.ex, self.syms, self.K, self.orders, self.ordinal, self.QD)
 
 
-def snapshot_from_store(kind, ex, syms, K, orders, ordinal, QD=1):
+def snapshot_from_store(kind, ex, syms, K, orders, ordinal, QD=1, cache=None):
     """the projected state of a session read from jesse's store (object-level sessions and real backtests alike):
     order records in creation order, registries as ordinals, balances / position / tables as exact encodings"""
     import jesse.helpers as jh
@@ -140,11 +140,20 @@ def snapshot_from_store(kind, ex, syms, K, orders, ordinal, QD=1):
         return [ordinal.get(id(o), 0) for o in objs]
 
     off = []
-    d = {"ord": [{"sym": RSYM.get(o.symbol, o.symbol), "side": o.side, "typ": rtyp.get(o.type, o.type),
-                  "q": units(abs(o.qty), QD if kind == "futures" else K, off, "order-qty"),
-                  "p": units(o.price, 1, off, "order-price"),
-                  "ro": bool(o.reduce_only), "st": ST.get(str(o.status).upper(), str(o.status))} for o in orders],
-         "pending": ids(st.orders.to_execute)}
+
+    def orec(o):
+        # long sessions: the record of an order is shared between snapshots as long as nothing observable changed
+        key = (id(o), o.status, o.qty, o.price, o.reduce_only, o.side, o.type)
+        if cache is not None and key in cache:
+            return cache[key]
+        r = {"sym": RSYM.get(o.symbol, o.symbol), "side": o.side, "typ": rtyp.get(o.type, o.type),
+             "q": units(abs(o.qty), QD if kind == "futures" else K, off, "order-qty"),
+             "p": units(o.price, 1, off, "order-price"),
+             "ro": bool(o.reduce_only), "st": ST.get(str(o.status).upper(), str(o.status))}
+        if cache is not None and not off:
+            cache[key] = r
+        return r
+    d = {"ord": [orec(o) for o in orders], "pending": ids(st.orders.to_execute)}
     d["trades"] = [ids(t.orders) for t in st.completed_trades.trades]
     d["alist"], d["areported"], d["acount"], d["temp"], d["cur"] = {}, {}, {}, {}, {}
     for s in syms:
